@@ -204,7 +204,12 @@ Definition sat (k : sval) (c : cop * sval) : bool :=
   | None => false
   end.
 
+Definition is_null (v : sval) : bool := match v with VNull => true | _ => false end.
+
+(* a comparison with NULL is never true: no row qualifies (fix b364e5c; before it a NULL operand
+   made Cursor.Filter panic) *)
 Definition select_model (tb : table) (desc : bool) (cs : list (cop * sval)) : option (list (sval * list sval)) :=
+  if existsb (fun c => is_null (snd c)) cs then Some [] else
   match window_of cs with
   | None => None
   | Some w =>
